@@ -166,9 +166,9 @@ RECURSIVE Chain(_, _, _, _, _, _)
 Chain(G, pat, i, r, used, cur) ==
   IF i > Len(pat.rels) THEN << [row |-> r, used |-> used] >>
   ELSE LET rp == pat.rels[i] np == pat.nodes[i + 1]
+           stepSeq == SetToSeq(Steps(G, rp, cur, used))
            ws == IF IsVarLen(rp) THEN Walks(G, rp, cur, used, <<>>, 0, rp.hi)
-                 ELSE [k \in 1..Cardinality(Steps(G, rp, cur, used)) |->
-                         LET st == SetToSeq(Steps(G, rp, cur, used))[k] IN [rels |-> <<st[1]>>, at |-> st[2]]]
+                 ELSE [k \in 1..Len(stepSeq) |-> [rels |-> <<stepSeq[k][1]>>, at |-> stepSeq[k][2]]]
            ok(w) ==
              /\ NodeFits(G, r, np, w.at)
              /\ (Bound(r, rp.v) =>
@@ -185,18 +185,24 @@ MatchPattern(G, pat, st) ==   \* st = [row, used]
       starts == Filter(NodeIds(G), LAMBDA id : NodeFits(G, st.row, np, id))
   IN FlatMap(starts, LAMBDA id : Chain(G, pat, 1, Bind(st.row, np.v, NodeV(id)), st.used, id))
 
-RECURSIVE MatchAll(_, _, _, _)
-MatchAll(G, pats, i, sts) ==
+(* perPattern = FALSE: a relationship is matched at most once in the whole MATCH clause     *)
+(* (openCypher).  perPattern = TRUE only scopes uniqueness to each comma-separated pattern; *)
+(* it exists to attribute a divergence to that cause, never to accept it.                   *)
+RECURSIVE MatchAll(_, _, _, _, _)
+MatchAll(G, pats, i, sts, perPattern) ==
   IF i > Len(pats) THEN sts
-  ELSE MatchAll(G, pats, i + 1, FlatMap(sts, LAMBDA st : MatchPattern(G, pats[i], st)))
+  ELSE MatchAll(G, pats, i + 1,
+                FlatMap(sts, LAMBDA st : MatchPattern(G, pats[i],
+                                           IF perPattern THEN [row |-> st.row, used |-> {}] ELSE st)),
+                perPattern)
 
 PatVars(pats) ==
   UNION {{pats[i].nodes[k].v : k \in 1..Len(pats[i].nodes)} \cup {pats[i].rels[k].v : k \in 1..Len(pats[i].rels)}
          : i \in 1..Len(pats)} \ {""}
 
-ApplyMatch(G, rows, part) ==
+ApplyMatch(G, rows, part, perPattern) ==
   FlatMap(rows, LAMBDA r :
-    LET ms == Filter(MapSeq(MatchAll(G, part.pats, 1, << [row |-> r, used |-> {}] >>), LAMBDA st : st.row),
+    LET ms == Filter(MapSeq(MatchAll(G, part.pats, 1, << [row |-> r, used |-> {}] >>, perPattern), LAMBDA st : st.row),
                      LAMBDA m : Passes(G, m, part.where))
     IN IF Len(ms) = 0 /\ part.opt
        THEN << [x \in (DOMAIN r) \cup PatVars(part.pats) |-> IF x \in DOMAIN r THEN r[x] ELSE Null] >>
@@ -275,19 +281,40 @@ TuplesToRows(ts, proj) ==
   MapSeq(ts, LAMBDA t : [x \in {proj.items[i].as : i \in 1..Len(proj.items)} |->
                             t[CHOOSE i \in 1..Len(proj.items) : proj.items[i].as = x]])
 
-ApplyPart(G, rows, part) ==
-  CASE part.t = "match" -> ApplyMatch(G, rows, part)
+ApplyPart(G, rows, part, perPattern) ==
+  CASE part.t = "match" -> ApplyMatch(G, rows, part, perPattern)
     [] part.t = "unwind" -> ApplyUnwind(G, rows, part)
     [] part.t = "with" -> Filter(TuplesToRows(Project(G, rows, part.proj), part.proj),
                                  LAMBDA r : Passes(G, r, part.where))
 
-RECURSIVE RunParts(_, _, _, _)
-RunParts(G, rows, parts, i) ==
-  IF i > Len(parts) THEN rows ELSE RunParts(G, ApplyPart(G, rows, parts[i]), parts, i + 1)
+RECURSIVE RunParts(_, _, _, _, _)
+RunParts(G, rows, parts, i, perPattern) ==
+  IF i > Len(parts) THEN rows ELSE RunParts(G, ApplyPart(G, rows, parts[i], perPattern), parts, i + 1, perPattern)
 
 EmptyRow == [x \in {} |-> Null]
 (* the result before ORDER BY / SKIP / LIMIT of the final RETURN: a bag of column tuples *)
-ResultBag(G, q) == Project(G, RunParts(G, << EmptyRow >>, q.parts, 1), q.ret)
+ResultBagU(G, q, perPattern) == Project(G, RunParts(G, << EmptyRow >>, q.parts, 1, perPattern), q.ret)
+ResultBag(G, q) == ResultBagU(G, q, FALSE)
+
+(* facts about a query / graph used to attribute divergences *)
+RECURSIVE ScopeAfter(_, _)
+ScopeAfter(parts, i) ==     \* variables in scope after the first i parts
+  IF i = 0 THEN {}
+  ELSE LET p == parts[i] prev == ScopeAfter(parts, i - 1) IN
+       CASE p.t = "match" -> prev \cup PatVars(p.pats)
+         [] p.t = "unwind" -> prev \cup {p.var}
+         [] p.t = "with" -> {p.proj.items[k].as : k \in 1..Len(p.proj.items)}
+(* a node variable that is already bound appears strictly inside a chain of two or more hops *)
+BoundMidNode(q) ==
+  \E i \in 1..Len(q.parts) : q.parts[i].t = "match" /\
+    \E j \in 1..Len(q.parts[i].pats) :
+      LET pat == q.parts[i].pats[j]
+          before == ScopeAfter(q.parts, i - 1) \cup PatVars(SubSeq(q.parts[i].pats, 1, j - 1))
+      IN \E k \in 2..(Len(pat.nodes) - 1) :
+           pat.nodes[k].v # "" /\ (pat.nodes[k].v \in before \/ \E m \in 1..(k - 1) : pat.nodes[m].v = pat.nodes[k].v)
+MultiPattern(q) == \E i \in 1..Len(q.parts) : q.parts[i].t = "match" /\ Len(q.parts[i].pats) > 1
+HasParallel(G) == \E i, j \in 1..Len(G.rels) :
+   i < j /\ G.rels[i].src = G.rels[j].src /\ G.rels[i].type = G.rels[j].type /\ G.rels[i].dst = G.rels[j].dst
 
 (***************************************************************************)
 (* Judging an observed result against the bag: ORDER BY fixes the order up *)
